@@ -266,14 +266,15 @@ func (c *itemCtx) evalCase(fc *filterCase) (*finding, bufimage.Image, error, *ex
 // specificRootCause are signatures that already name one defect precisely; they are never
 // re-attributed to the excluded-RPC-type family.
 var specificRootCause = map[string]bool{
-	"links/map-entry-lost-field":                  true,
-	"links/oneof-index-not-remapped":              true,
-	"links/import-file-content-not-walked":        true,
-	"minimal/extra/extendee-of-dropped-extension": true,
-	"no-error/file-without-types/missing-file":    true,
-	"empty-result/unfiltered-image-returned":      true,
-	"comments/dangling-path/weak-dependency":      true,
-	"in-place/copy-mode-mutated-input":            true,
+	"links/map-entry-lost-field":                      true,
+	"links/oneof-index-not-remapped":                  true,
+	"links/import-file-content-not-walked":            true,
+	"links/import-file-of-known-extension-not-walked": true,
+	"minimal/extra/extendee-of-dropped-extension":     true,
+	"no-error/file-without-types/missing-file":        true,
+	"empty-result/unfiltered-image-returned":          true,
+	"comments/dangling-path/weak-dependency":          true,
+	"in-place/copy-mode-mutated-input":                true,
 }
 
 func (c *itemCtx) evalWith(fc *filterCase, ex *expectation) (*finding, bufimage.Image, error) {
@@ -348,6 +349,12 @@ func (c *itemCtx) evalWith(fc *filterCase, ex *expectation) (*finding, bufimage.
 		if len(fc.Include) == 0 {
 			for _, f := range out.Files() {
 				if f.IsImport() && !isWKT(f.Path()) && strings.HasPrefix(lerr.Error(), f.Path()+": ") {
+					if ex.ContentFiles != nil && !ex.ContentFiles[f.Path()] {
+						// Nothing that is kept references the file by type, option or payload: it is in the
+						// image only because it declares a known extension of a kept message (a step that
+						// FilterImage takes after the import files were walked).
+						return &finding{"links/import-file-of-known-extension-not-walked", fmt.Sprintf("exclude-only filter: import file %s is in the filtered image only as the home of a known extension of a kept message; it is kept with all of its content, but that content was never walked (the import of the file it needs is gone): %v", f.Path(), lerr)}, out, nil
+					}
 					return &finding{"links/import-file-content-not-walked", fmt.Sprintf("exclude-only filter: import file %s is kept with content that was never walked (it is kept as is, but the import of the file it needs / the excluded type it references is gone): %v", f.Path(), lerr)}, out, nil
 				}
 			}
@@ -431,6 +438,12 @@ func (c *itemCtx) evalWith(fc *filterCase, ex *expectation) (*finding, bufimage.
 		for _, sh := range ex.PkgShapes {
 			st.inc("include_package_" + sh + "_accepted_cases")
 		}
+	}
+	if len(fc.Include) == 0 {
+		// non-vacuity of "a kept import file is kept with everything its content needs": how many
+		// generations of import files the case needed (>= 3: a file needed only by the unreferenced
+		// content of a file that is itself needed only by unreferenced content), result linked
+		st.inc(fmt.Sprintf("exclude_only_import_generations_%d_cases", min(ex.ImportGenerations, 6)))
 	}
 	if ex.Exact {
 		st.inc("closure_exact_cases")
@@ -985,7 +998,8 @@ func run(r *evid.Run) {
 	}
 	for _, clause := range []string{"clause_links_checked", "clause_closure_checked", "clause_no_excluded_checked", "clause_unchanged_checked", "clause_comments_checked", "clause_no_error_checked", "clause_idempotence_checked", "clause_in_place_compared", "clause_contradictory_filter_rejected", "clause_must_fail", "member_fields_dropped_cases", "oneofs_dropped_cases", "shell_cases", "dependency_lists_rewritten", "locations_moved",
 		"any_payload_url_default_cases", "any_payload_url_single-segment_cases", "any_payload_url_path_cases", "any_payload_url_scheme_cases", "any_payload_url_empty-host_cases",
-		"include_package_all-target_accepted_cases", "include_package_mixed-import-first-and-last_accepted_cases", "include_package_mixed-import-last_accepted_cases", "include_package_all-import_rejected_cases"} {
+		"include_package_all-target_accepted_cases", "include_package_mixed-import-first-and-last_accepted_cases", "include_package_mixed-import-last_accepted_cases", "include_package_all-import_rejected_cases",
+		"exclude_only_import_generations_2_cases", "exclude_only_import_generations_3_cases", "exclude_only_import_generations_4_cases", "exclude_only_import_generations_5_cases", "exclude_only_import_generations_6_cases"} {
 		if total[clause] == 0 && !r.Expired() {
 			r.Incomplete("clause never exercised: " + clause)
 		}
